@@ -56,6 +56,8 @@ static int run_ms(const lay_t *L,void *d,const char *ctx,int api,const unsigned 
       if (D>0 && D<=fs){ opus_int32 dur=-1; MC_INC(c_valid);
          if (ret!=D) FAIL("valid_framing_count",CALLDESC " announced=%ld",CALLARGS,D);
          else if (ms_lastdur(L,d,&dur)!=OPUS_OK||dur!=D) FAIL("valid_framing_last_duration",CALLDESC " announced=%ld last_packet_duration=%d",CALLARGS,D,(int)dur); } }
+   if (ret>0 && p && len>0 && fec!=0 && ms_model(p,len,L->S,L->Fs)>0){ opus_int32 dur=-1;   /* FEC call on a validly framed packet: the count returned is what the query then reports */
+      if (ms_lastdur(L,d,&dur)!=OPUS_OK||dur!=ret) FAIL("valid_framing_last_duration",CALLDESC " last_packet_duration=%d",CALLARGS,(int)dur); }
    if (ret>0){ opus_int32 dur=-1; uint64_t h; ms_lastdur(L,d,&dur); if(dur!=ret) MC_INC(c_adv_lastdur);
       h=mc_mix(mc_mix(mc_hash(L->name,strlen(L->name),L->Fs),api),mc_mix(fec,ret)); h=mc_mix(h,(p&&len>0)?p[0]:0x1FF); h=mc_mix(h,len>3?4:len);
       if (mc_set_add(obs,h) && (h&255)==0) mc_sample("layout=%s Fs=%d %s | %s(len=%d,frame_size=%d,fec=%d) pkt=%s -> n=%d (last_packet_duration=%d)",L->name,L->Fs,ctx,an,len,fs,fec,(p&&len>0)?mc_hex(p,len>48?48:len):"-",ret,(int)dur); }
